@@ -51,7 +51,8 @@ ASSUME = ["mc/compat.py restores removed numpy names only",
           "ploidies are given as genotype matrix objects",
           "rrBLUP variance ratio is the one reported by the library's own rrBLUP_ML0 for that fit (captured by "
           "wrapping the module-level function inside the harness process)",
-          "normal-equation clause only for n > #polymorphic markers and Z of full column rank (well-determined)"]
+          "normal-equation clause for every training set with n > #polymorphic markers (tolerance 1e-6 x scale); sets whose "
+          "polymorphic columns are linearly dependent are reported under the separate signature suffix @collinear-markers"]
 
 # ----------------------------------------------------------------------------
 # alphabets (rotated by VERIF_SEED; all dyadic so float64 holds them exactly)
@@ -67,6 +68,11 @@ TGRP = [[2, 1, 2, 1], [5, 5, 3, 9], [0, 7, 0, 7]]
 TRAIT = [["yield", "ht"], ["b", "a"], ["T1", "T0"]]
 YV = [(Fr(0), Fr(1), Fr(3)), (Fr(-1), Fr(1, 2), Fr(2)), (Fr(10), Fr(11), Fr(14))]
 XV = (Fr(2), Fr(1, 2), Fr(-1))
+
+# The normal-equation clause is applied whenever n > #polymorphic markers, as the property says.  Training sets whose
+# polymorphic marker columns are linearly dependent (markers in complete LD) get their own signature suffix
+# "@collinear-markers"; set to False to restrict the clause to full-column-rank sets.
+NORMAL_EQ_ON_COLLINEAR = True
 
 CLSNAME = {"A": "DenseAdditiveLinearGenomicModel", "D": "DenseAdditiveDominanceLinearGenomicModel",
            "L": "DenseLinearGenomicModel", "R": "rrBLUPModel0"}
@@ -973,11 +979,18 @@ def fit_oracle(ctx, model, outs, Y, Z, sigp, what):
         q0 = R.ridge_criterion(y, Zp, b, [0.0] * len(cols), lam)
         require(q1 <= q0 + 1e-12 * max(1.0, q0), sigp + "worse-than-zero",
                 f"{what}: penalised criterion {q1!r} at the solution exceeds {q0!r} at u=0 (lambda={lam!r}, Z={Z}, y={y}, u={u})")
-        if n > len(cols) and R.column_rank(Zp) == len(cols):
-            res, scale = R.normal_eq_residual(y, Zp, b, up, lam)
-            require(res <= 1e-6 * scale, sigp + "normal-equations",
-                    f"{what}: |Z'(y-b) - (Z'Z + lambda I)u|_inf = {res!r} > 1e-6*{scale!r} (lambda={lam!r}, Z={Z}, y={y}, u={u})")
-            ctx.count("fit:normal-equation-clause-checked")
+        if n > len(cols):
+            # the property's condition is "more training records than polymorphic markers"; failures are
+            # classified by whether the polymorphic columns are linearly independent (Z'Z non-singular) or not
+            full = R.column_rank(Zp) == len(cols)
+            if full or NORMAL_EQ_ON_COLLINEAR:
+                res, scale = R.normal_eq_residual(y, Zp, b, up, lam)
+                ctx.count("fit:normal-equation-clause-checked" + ("" if full else ":collinear-markers"))
+                require(res <= 1e-6 * scale, sigp + "normal-equations" + ("" if full else "@collinear-markers"),
+                        f"{what}: |Z'(y-b) - (Z'Z + lambda I)u|_inf = {res!r} > 1e-6*{scale!r} (lambda={lam!r}, Z={Z}, y={y}, u={u}"
+                        + ("" if full else "; polymorphic marker columns are linearly dependent") + ")")
+            else:
+                ctx.count("fit:normal-equation-clause-not-applicable")
         else:
             ctx.count("fit:normal-equation-clause-not-applicable")
 
